@@ -53,7 +53,7 @@ def customs_everywhere(rnd, m):
 def variants(rnd, b, nvar):
     """yield (kind, bytes)"""
     out = []
-    kinds = ['pad-max', 'pad-random', 'custom', 'dataflag', 'emptysec', 'pad-one', 'all']
+    kinds = ['pad-max', 'pad-random', 'custom', 'dataflag', 'emptysec', 'pad-one', 'all', 'locals']
     for i in range(nvar):
         kind = kinds[i % len(kinds)] if i < len(kinds) else rnd.choice(kinds)
         m = wasm.decode(b)
@@ -69,6 +69,8 @@ def variants(rnd, b, nvar):
             sub = 'pad-one:' + f
         elif kind == 'custom':
             customs_everywhere(rnd, m)
+        elif kind == 'locals':
+            enc = wasm.Enc(None, locals_rnd=rnd)   # equivalent local declaration vectors: split groups, zero-count groups anywhere
         elif kind == 'dataflag':
             for dseg in m.datas:
                 if dseg['mode'] == 'active' and dseg.get('mem', 0) == 0:
@@ -145,7 +147,7 @@ def main(chk):
     pm.add_func([I32, I32, I32], [], [], [('local.get', 0), ('local.get', 1), ('local.get', 2), ('memory.fill',)], export='fill')
     pm.add_func([I32, I32, I32], [], [], [('local.get', 0), ('local.get', 1), ('local.get', 2), ('memory.init', 0)], export='init')
     bases.append(('prefixed-misc', pm.encode(), None))
-    nvar = 7 if quick else 16
+    nvar = 8 if quick else 18
     root = env.subdir('c08')
 
     def one(item):
